@@ -127,8 +127,8 @@ impl OutputManager {
         ];
 
         generated_patterns.contains(&filename)
-            || filename.starts_with("generated_")
-            || filename.contains("_generated")
+            || ((filename.starts_with("generated_") || filename.contains("_generated"))
+                && filename.ends_with(".ts"))
             || self.managed_files.contains(filename)
     }
 
